@@ -263,6 +263,9 @@ func runHistory(r *rng.R, id int, wo, wi *bufio.Writer) {
 			w := write{store: names[r.Intn(ns)], del: r.Chance(1, 4), k: randKey(r)}
 			if !w.del {
 				w.v = r.Bytes(1 + r.Intn(4))
+				if r.Chance(1, 8) {
+					w.v = []byte{} // present with an empty value
+				}
 			}
 			apply(A, w)
 			apply(B, w)
